@@ -268,6 +268,11 @@ func (e *Extractor) processOperation(op contentstream.Operation) error {
 						// Default to Helvetica for unknown fonts
 						e.RegisterFont(fontName, "Helvetica", "Type1")
 					}
+
+					// The selection is the font the name is bound to now, not
+					// the name: a Form XObject drawn later may bind the same
+					// name to another font in its own resources.
+					e.gs.Text.Font = e.fonts[fontName]
 				}
 			}
 		}
@@ -583,19 +588,24 @@ func (e *Extractor) showText(data []byte) {
 	fontSize := e.gs.GetEffectiveFontSize() // Use effective size (accounts for text matrix)
 	fontName := e.gs.GetFontName()
 
+	// The font Tf selected, carried with the graphics state. It is not looked
+	// up by name here: inside a Form XObject the name may be bound to another
+	// font than the one the (inherited) text state selected.
+	f := e.gs.Text.Font
+
 	// Decode text using font's ToUnicode CMap if available
 	var decodedText string
-	if f, ok := e.fonts[fontName]; ok {
+	if f != nil {
 		decodedText = f.DecodeString(data)
 	} else {
-		// No font registered - use raw bytes as string (fallback), made valid
+		// No font selected - use raw bytes as string (fallback), made valid
 		// UTF-8 and normalized like every other decoded string
 		decodedText = font.NormalizeUnicode(strings.ToValidUTF8(string(data), "\uFFFD"))
 	}
 
 	// Calculate text width
 	width := 0.0
-	if f, ok := e.fonts[fontName]; ok {
+	if f != nil {
 		width = f.GetStringWidth(decodedText) * fontSize / 1000.0
 	} else {
 		// Estimate width if font not available
